@@ -43,7 +43,7 @@
       local            VALUES, then the variables' types
       function stmt/expr, local function, type function
                        body, then parameter types, variadic type, return type (function
-                       generics are not visited)
+                       generics are not visited by the Rust code; see [rc_fbody])
       generic for      expressions, BODY, then the variables' types
       numeric for      start, end, step, BODY, then the variable's type
       repeat           CONDITION, then the body          while             condition, body
@@ -80,7 +80,7 @@
     NOT REPRESENTED by the tree (Lua/Syntax.v): tokens (the rule renames the [continue]
     token to [break]), attribute arguments and function generics (no expression inside). *)
 From Coq Require Import NArith List Bool.
-From DL Require Import Lib.Bytes Lua.Syntax Lua.Census.
+From DL Require Import Lib.Bytes Lua.Syntax.
 Import ListNotations.
 Open Scope N_scope.
 
@@ -235,7 +235,10 @@ with rc_tentry (n : N) (t : tentry) {struct t} : tentry * N :=
 
 (** [visit_function_expression] / [visit_function_statement] / [visit_local_function] /
     [visit_type_function_statement] after the frame decision of the caller: body first, then
-    the parameter types, the variadic type, the return type *)
+    the parameter types, the variadic type, the return type.  The Rust visitor does not visit
+    function generics; they hold no expression in any tree darklua builds ([astdump]: kinds
+    21 / 22 / 20, leaves), so visiting them last - as Model/Visit.v also does, for
+    uniformity - changes nothing on such trees. *)
 with rc_fbody (ctx : option N) (n : N) (f : fbody) {struct f} : fbody * N * bool :=
   match f with
   | FBody ps variadic vartype ret gen attrs body =>
@@ -243,7 +246,8 @@ with rc_fbody (ctx : option N) (n : N) (f : fbody) {struct f} : fbody * N * bool
     let (ps', n2) := mapS rc_param n1 ps in
     let (vartype', n3) := optS rc_ty n2 vartype in
     let (ret', n4) := optS rc_ty n3 ret in
-    (FBody ps' variadic vartype' ret' gen attrs body', n4, c)
+    let (gen', n5) := optS rc_ty n4 gen in
+    (FBody ps' variadic vartype' ret' gen' attrs body', n5, c)
   end
 
 with rc_param (n : N) (p : param) {struct p} : param * N :=
@@ -354,10 +358,6 @@ Definition remove_continue_loops (b : block) : N := snd (fst (rc_block None 0 b)
 Definition nsum (l : list N) : N := fold_right N.add 0 l.
 Definition nopt {A} (f : A -> N) (o : option A) : N := match o with Some a => f a | None => 0 end.
 
-(** function generics are not visited by [NodePostVisitor]: every [continue] inside them (none
-    in a tree darklua builds: generics hold no expression) stays, whatever the frame *)
-Definition continues_in_ty (t : ty) : N := nth 1 (c_ty t) 0.
-
 Fixpoint stray_ty (t : ty) {struct t} : N :=
   match t with
   | TyNode _ subs es => nsum (map stray_ty subs) + nsum (map stray_expr es)
@@ -403,7 +403,7 @@ with stray_tentry (t : tentry) {struct t} : N :=
 with stray_fbody (inl : bool) (f : fbody) {struct f} : N :=
   match f with
   | FBody ps _ vt rt gen _ body =>
-    nsum (map stray_param ps) + (nopt stray_ty vt + (nopt stray_ty rt + (nopt continues_in_ty gen + stray_block inl body)))
+    nsum (map stray_param ps) + (nopt stray_ty vt + (nopt stray_ty rt + (nopt stray_ty gen + stray_block inl body)))
   end
 
 with stray_param (p : param) {struct p} : N :=
